@@ -36,15 +36,21 @@ impl AuthenticationAdapter for MojangAdapter {
         // calculate the minecraft hash for this secret, key and username
         let hash = minecraft_hash(&self.server_id, shared_secret, encoded_public);
 
-        // issue a request to Mojang's authentication endpoint
+        // issue a request to Mojang's authentication endpoint; the client-chosen username must
+        // not be able to change the request, so both values are passed as encoded parameters
         let username = user.0;
-        let url = format!(
-            "https://sessionserver.mojang.com/session/minecraft/hasJoined?username={username}&serverId={hash}"
-        );
+        let url = reqwest::Url::parse_with_params(
+            "https://sessionserver.mojang.com/session/minecraft/hasJoined",
+            [("username", username), ("serverId", hash.as_str())],
+        )
+        .map_err(|err| passage_adapters::Error::FailedFetch {
+            adapter_type: "mojang",
+            cause: Box::new(err),
+        })?;
         #[cfg(passage_verif)]
         let url = verif_session_base(url.as_str());
         let profile = HTTP_CLIENT
-            .get(&url)
+            .get(url)
             .send()
             .await
             .map_err(|err| passage_adapters::Error::FailedFetch {
